@@ -38,8 +38,8 @@ claimed = {
          "NewKeyFromSeed's own correctness is C02; reader modelled by the io.ReadFull / io.Reader contracts"),
  "C15": ("frame condition: sequences of exported calls (verify, sign, key derivation, three batches, X25519 base/generic) executed on symbolic inputs; the store log contains no caller-supplied or package-level object (every store the executor sees to such an object is an obligation), results of a call are unchanged by earlier calls",
          "interleavings are not enumerated: disjoint write sets and read-only shared state imply race freedom under the Go memory model; crypto/rand.Reader and sha512 objects are assumed goroutine-safe / call-local"),
- "C16": ("group law under the field-abstract model on both layouts (Add, Double, doublePartial, nielsAdd2, pnielsAdd, both vartime mixed additions with both signs, fullToPniels, conversions) as polynomial congruences against the Edwards law, every field call site checked against the class C18 proves; curve constants; selector of every configuration (C08); sliding-window recoding (8/14 symbolic bits at six offsets, windows 5 and 7) and radix-16 recoding (C19)",
-         "the algorithm level of ScalarmultBaseNiels / DoubleScalarmultVartime (composition of the proven steps over symbolic digit strings) is not yet discharged: see DESIGN.md"),
+ "C16": ("three layers on both limb layouts. (1) Group law under the field-abstract model (Add, Double, doublePartial, nielsAdd2 incl. the wide-T class, pnielsAdd, both vartime mixed additions with both signs, fullToPniels and the projective-table class chain, conversions) as polynomial congruences against the Edwards law, every field call site checked against the class C18 proves. (2) Constants: curve constants, Basepoint (y = 4/5, x even, on the curve), all 256 rows of NielsBaseMultiples and all 32 entries of nielsSlidingMultiples related to Basepoint by running the real Add/Double concretely; the constant-time selector = signed table row for every digit (C08 harness). (3) Algorithms under the group-abstract model: ScalarmultBaseNiels with all 64 radix-16 digits symbolic in [-8, 8] returns [sum b_i 16^i]B (first window checked at field level, every selection used once, Double before the second pass); DoubleScalarmultVartime returns [sum d1_i 2^i]P + [sum d2_i 2^i]B for both sliding-window digit strings symbolic at 2 (thorough: 4) consecutive positions at the top, in the middle and at the bottom, incl. the leading-zero skip loop, table index and sign computation, and the all-zero case. Recodings (radix-16 for all scalars below 2^255, sliding window at bounded placements) come from C19, re-run here",
+         "longer windows of non-zero sliding digits are the same loop body repeated (outside the bound); table rows are tied to B through the proven group-law code, not an independent reference (the math/big oracle is used only to confirm counterexamples)"),
  "C17": ("heap operations from an arbitrary scalar state (heapUpdatedRoot, heapInsertNext, heapGetTop2 for heap sizes 3..9, three fixed index permutations, all limb sizes), the final double-and-add = [s]P for symbolic scalars across limb boundaries, an all-valid batch never reaches the per-signature fallback (n = 4, 5, 68)",
          "one Bos-Coster loop iteration as a unit and the termination measure are argued from the proven pieces (DESIGN.md); the probability that the loop ends before the 128-bit scalars are inserted is outside"),
  "C18": ("every field function of both limb layouts (Add, AddAfterBasic, AddReduce, Sub, SubAfterBasic, SubReduce, Neg, Mul, Square, SquareTimes step, Expand, Contract, SwapConditional, Copy) for all limbs inside the operand classes the group law produces; bit-vector terms are lifted to integer arithmetic in a linear normal form (every no-wrap decision is a solver-discharged side condition); exact residue and output limb bounds",
